@@ -7,7 +7,9 @@ TECHNIQUE = ('resolved interface analysis of emitted C text (helper calls with t
              'against the utility catalogue; exhaustive evaluation of the #if tree of the fastcall helper family; path-sensitive '
              'dataflow for utility loads, raise=>exit and labels; table comparison of METH_* flag combinations with the C dispatch switches; '
              'symbolic evaluation of the wrapper generator over the complete partition of the `**kwargs` state; taint analysis (container element -> '
-             'representation-level string comparison) over FunctionArguments.c with guards decided by a truth table over {exact str, str subclass, not a str}')
+             'representation-level string comparison) over FunctionArguments.c with guards decided by a truth table over {exact str, str subclass, not a str}; '
+             'interprocedural linear forms (argnames + k*num_pos_args) of the table pointers of the keyword parser; provenance (guard sets) of the positional-only counters of the wrapper generator; '
+             'truth table of the unknown-keyword exits over {kwds2} x {ignore flag}')
 DECIDES = ('C24-I5: every emitted call to a FunctionArguments.c helper has the arity of every #if variant of the helper; '
            'C24-FAM: every __Pyx_<Family>_<fastvar> helper that can be emitted is defined with that arity under every feasible assignment of '
            'the #if conditions of the fastcall section; C24-GUARD: the variant chosen by Signature.fastvar uses the fastcall argument layout '
@@ -23,10 +25,17 @@ DECIDES = ('C24-I5: every emitted call to a FunctionArguments.c helper has the a
            '__Pyx_ParseKeywords call (positions taken from the C definitions) together with the emission creating the dict accept unknown keywords exactly when the '
            'signature has **kwargs, a read dict is passed and created, and no __Pyx_RejectKeywords emission is reachable with **kwargs; '
            'C24-EXACT: a keyword name taken out of the caller\'s container reaches memcmp/PyUnicode_DATA, the cached ->hash or PyUnicode_Compare (directly or through '
-           'helper parameters, propagated to a fixpoint) only under a dominating condition that is true for exact str alone.')
-NOT_DECIDED = ('the rest of the keyword matching algorithm (__Pyx_ParseKeywords*/__Pyx_MatchKeywordArg: duplicates, the order of the two search loops, '
-               'what the C helpers do with the dict / ignore flag they receive), the arithmetic relating values[] indices, argnames[] offsets and positional counts in the emitted '
-               'switch statements, reference counting of values[], and S3 (raise => error return inside the C helpers, needs a C CFG); '
+           'helper parameters, propagated to a fixpoint) only under a dominating condition that is true for exact str alone; '
+           'C24-IDX: every table pointer of the keyword parser is a linear form argnames + k*num_pos_args of the entry point\'s parameters (helpers bound at their call sites): a hit\'s slot is '
+           '`cursor - argnames`, keyword lookups scan from argnames + num_pos_args, duplicate-of-positional checks scan [argnames, argnames + num_pos_args); '
+           'C24-POSONLY: every counter that offsets values[] indices against the keyword-name table (values + K, nargs - K, pykwdlist[i - K]; locals or parameters bound at self.method() call sites) '
+           'counts exactly the positional-only parameters, the complement of the `not arg.pos_only` filter of the table; '
+           'C24-KWCOUNT: the num_kwargs argument of __Pyx_ParseKeywords is the keyword count, the num_pos_args argument is 0 or a C variable defined from nargs in the same function; '
+           'C24-UNKNOWN: the unexpected-keyword exit of every parser that gets the flags is reachable exactly for (kwds2 NULL, ignore_unknown_kwargs 0) — truth table of its enclosing conditions; '
+           'C24-KWSTR: __Pyx_CheckKeywordStrings is emitted on every path before __Pyx_KwargsAsDict_*; '
+           'C24-VCSELF: a CyFunction call path that takes self from args[0] / item 0 of the tuple passes on args+1, nargs-1 / the slice from 1.')
+NOT_DECIDED = ('the rest of the keyword matching algorithm (the order of the two search loops, the `extracted` counter of the dict parser), the arithmetic of the emitted switch statements '
+               '(case numbers, the enumerate()/range() values behind values[i] in the unpacking, defaults and conversion emitters, the start of the *args slice), reference counting of values[], and S3 (raise => error return inside the C helpers, needs a C CFG); '
                'I8 is decided for the emitters in Nodes.py only (ExprNodes collects helper names in a set and loads them in a loop).')
 ASSUMPTIONS = ['preprocessor identifiers of the fastcall section are independent 0/1 switches (version macros take the values around '
                'each threshold they are compared with); configurations that hit #error are infeasible',
@@ -74,6 +83,14 @@ MUTATIONS = [
     ('Cython/Utility/FunctionArguments.c', "seed C24b: __Pyx_MatchKeywordArg dispatches on PyUnicode_Check", 'C24-EXACT (both callers)'),
     ('Cython/Utility/FunctionArguments.c', "__Pyx_MatchKeywordArg: dispatch removed (always _str) / arms swapped / `CheckExact(key) || Check(key)`", 'C24-EXACT (3 variants)'),
     ('Cython/Utility/FunctionArguments.c', "__Pyx_ParseKeywordsTuple calls __Pyx_MatchKeywordArg_str(key, ...) directly", 'C24-EXACT'),
+    # fourth round (rules/sC24.py; the full list with patches is in /verif/mutants/C24/)
+    ('Cython/Utility/FunctionArguments.c', 'seed C24c and siblings: index computed as `name - first_kw_arg` in _str (both arms), _nostr, values[name-first_kw_arg]', 'C24-IDX index-base (4 variants)'),
+    ('Cython/Utility/FunctionArguments.c', 'keyword scan started at argnames; first_kw_arg = argnames; duplicate scan started at first_kw_arg', 'C24-IDX keyword-scan-start / positional-scan-range (3 variants)'),
+    ('Cython/Utility/FunctionArguments.c', '`else if (ignore_unknown_kwargs) goto invalid_keyword`', 'C24-UNKNOWN'),
+    ('Cython/Compiler/Nodes.py', 'seed C24d and siblings: offset = number of REQUIRED positional-only args (passed in / counted locally / in pykwdlist[i - K]); name table also filtered by kw_only', 'C24-POSONLY (4 variants)'),
+    ('Cython/Compiler/Nodes.py', 'num_pos_args / num_kwargs operands of __Pyx_ParseKeywords exchanged; __Pyx_CheckKeywordStrings emission dropped', 'C24-KWCOUNT; C24-KWSTR'),
+    ('Cython/Utility/CythonFunction.c', 'Vectorcall_O without `args += 1`; CallAsMethod slices from 0', 'C24-VCSELF (2 variants)'),
+    ('Cython/Compiler/Nodes.py', 'defaults written to values[i+1]; *args sliced from 0; FunctionArguments.c: `extracted++` dropped; casts around swapped arguments', 'MISSED (arithmetic / run-time counts, see NOT_DECIDED)'),
 ]
 # Behaviour-preserving edits tried: all stay silent.
 PRESERVING = [
@@ -89,6 +106,9 @@ PRESERVING = [
     ('Cython/Utility/FunctionArguments.c', '__Pyx_MatchKeywordArg: `if (unlikely(!PyUnicode_CheckExact(key))) return nostr(...); return str(...);`'),
     ('Cython/Utility/FunctionArguments.c', '__Pyx_MatchKeywordArg: `unlikely(!Py_IS_TYPE(key, &PyUnicode_Type)) ? nostr : str`'),
     ('Cython/Utility/FunctionArguments.c', '__Pyx_MatchKeywordArg_str: parameter renamed, the ->hash read extracted into a new helper function'),
+    ('Cython/Utility/FunctionArguments.c', 'index through a local alias of argnames; parameters of _str renamed with local aliases; unknown-keyword test written with an empty `if (ignore) {}` arm'),
+    ('Cython/Compiler/Nodes.py', 'counting loop with `if not arg.pos_only: continue` and an alias; the correct half of seed C24d (caller passes num_pos_only_args); pos_arg_count renamed'),
+    ('Cython/Utility/CythonFunction.c', '`args++; --nargs;`'),
 ]
 
 
@@ -101,4 +121,4 @@ def run(ctx):
     from ..rules import sC24
     return [pC24.rule_arity(ctx, sites), fam, guard, pC24.rule_proto_def(ctx), pC24.rule_order(ctx, sites),
             pC24.rule_sections(ctx, sites, domain), pC24.rule_raise_exit(ctx, sites, domain), g3, g4, pC24.rule_flags(ctx),
-            sC24.rule_kw2(ctx), sC24.rule_exact(ctx)]
+            sC24.rule_kw2(ctx), sC24.rule_exact(ctx), sC24.rule_idx(ctx), sC24.rule_posonly(ctx), sC24.rule_kwstr(ctx), sC24.rule_vcself(ctx), sC24.rule_unknown(ctx), sC24.rule_kwcount(ctx)]
